@@ -252,6 +252,50 @@ def run_case(spec_msgs, lead, chunk):
     return None
 
 
+def foreign_index_case():
+    """messages written by another implementation (reference codec): a descriptor argument holds the POSITION of its descriptor
+    among those attached to the message - two arguments may name the same position, positions may come in any order - and
+    exactly the declared count is consumed, so the next message still finds its own descriptors"""
+    from twisted.internet.testing import StringTransport
+    from txdbus import protocol
+    from .message_harness import ref_message
+
+    class Receiver(protocol.BasicDBusProtocol):
+        def __init__(self): self.got = []
+        def methodCallReceived(self, m): self.got.append(m)
+        methodReturnReceived = errorReceived = signalReceived = methodCallReceived
+
+    cases = [('hh', [0, 0], [50], [50, 50]), ('hhh', [1, 0, 1], [60, 61], [61, 60, 61]), ('hsh', [1, 'x', 0], [70, 71], [71, 'x', 70]),
+             ('ah', [[0, 0, 1]], [80, 81], [[80, 80, 81]]), ('h', [0], [90], [90])]
+    for le in (True, False):
+        for lead in (False, True):
+            r = Receiver()
+            r.transport = StringTransport()
+            r._receivedFDs = []
+            r._authenticated = True
+            raws = []
+            for k, (sig, idx, fds, want) in enumerate(cases):
+                raws.append(ref_message(1, 0, k + 1, [(1, '/o'), (2, 'org.e.I'), (3, 'M'), (8, sig), (9, len(fds))], sig, idx, le))
+            if lead:                      # every descriptor is already queued when the first byte is read
+                for _s, _i, fds, _w in cases:
+                    for f in fds:
+                        r.fileDescriptorReceived(f)
+            for raw, (_s, _i, fds, _w) in zip(raws, cases):
+                if not lead:
+                    for f in fds:
+                        r.fileDescriptorReceived(f)
+                r.dataReceived(raw)
+            if len(r.got) != len(cases):
+                return 'foreign descriptor messages (le=%s, descriptors %s): delivered %d of %d' % (le, 'all ahead' if lead else 'with each message', len(r.got), len(cases))
+            for m, (sig, idx, fds, want) in zip(r.got, cases):
+                if list(m.body) != want:
+                    return 'message %r with position arguments %r and attached descriptors %r (le=%s, descriptors %s) delivered as %r, expected %r' % (
+                        sig, idx, fds, le, 'all ahead' if lead else 'with each message', m.body, want)
+            if r._receivedFDs:
+                return 'descriptors left in the queue: %r' % (r._receivedFDs,)
+    return None
+
+
 def callremote_fresh_list_case():
     from twisted.internet.testing import StringTransport
     from txdbus import client, message
@@ -276,6 +320,10 @@ def bounded(tier, seed):
     rnd = random.Random(seed)
     for _ in range(30 if tier == 'thorough' else 6):
         base.append([(rnd.choice(kinds), rnd.randrange(0, 4)) for _ in range(rnd.randrange(2, 7))])
+    # a burst of small messages whose descriptors are all reported before the first byte is decoded (one large read):
+    # more descriptors outstanding at once than any single message may carry
+    base.append([('call', 3), ('call', 0), ('sig', 3), ('ret', 2), ('call', 3), ('call', 1), ('sig', 3), ('call', 3), ('ret', 3), ('call', 2)])
+    base.append([(kinds[i % 3], 1 + i % 3) for i in range(24)])
     for seq in base:
         for lead in (0, 1, 2, len(seq)):
             for chunk in ((1, 3, 16, 17, 100, 10 ** 6) if tier == 'thorough' else (1, 17, 10 ** 6)):
@@ -286,6 +334,13 @@ def bounded(tier, seed):
                     f = 'raised %s: %s' % (type(e).__name__, e)
                 if f:
                     return n, f, {'messages': seq, 'fd_lead': lead, 'read_size': chunk}
+    n += 1
+    try:
+        f = foreign_index_case()
+    except Exception as e:
+        f = 'foreign descriptor messages raised %s: %s' % (type(e).__name__, e)
+    if f:
+        return n, f, {'case': 'descriptor positions written by another implementation'}
     n += 1
     f = callremote_fresh_list_case()
     if f:
